@@ -181,14 +181,16 @@ func (p *Pool[K, V]) Put(key K, val V) {
 
 	for p.opts.Capacity != 0 && p.order.count >= p.opts.Capacity {
 		ent := p.order.head
-		local := p.entries[ent.key]
+		entLocal := p.entries[ent.key]
 
 		_ = p.closeEntry(ent)
 
-		local.removeEntry(ent, (*entry[K, V]).localList)
+		entLocal.removeEntry(ent, (*entry[K, V]).localList)
 		p.order.removeEntry(ent, (*entry[K, V]).globalList)
 
-		if local.count == 0 {
+		// never drop the list we are about to append to: that would leave
+		// the new entry in a list that Take cannot find.
+		if entLocal.count == 0 && entLocal != local {
 			delete(p.entries, ent.key)
 		}
 	}
